@@ -46,13 +46,13 @@ PROPERTIES = {
            _fz('fz_encoded_stream', 'fz_encoded_stream.cpp', [], 'bytes as an encoded stream for DetectEncoding (string and stream) and CEncodedStreamReader<char|char16_t|char32_t, 32|256> over istringstream / short-read streambuf; in-target oracle: end reached within size+64 ReadChunk calls, Skip output well-formed; non-trivial = several chunks, a BOM or a decoding error', qruns=400000)]),
  'C03': dict(
     level='exploration', exhaustive_claim=False,
-    rule='model-based: generated object documents (1..10 keys; ints, strings, bools, doubles, int arrays, nested objects; MsgPack also integer / float / timestamp keys) in an envelope [padding 0..600, object, sentinel]; generated request scripts (any order, repeats, absent keys with int / string / optional / atomic / unique_ptr targets, nested object with sub-script, array read for j <= n elements, VisitKeys, early stop) executed through the public Serialize(scope, key, value) API; 4 archives x memory / stringstream / short-read stream; MsgPack keys 2^N - a next to absent requests intN_t(-a) (same bit pattern, N = 8..64); oracle = the document as a map + the sentinel behind the object',
+    rule='model-based: generated object documents (1..10 keys; ints, strings, bools, doubles, int arrays, nested objects; MsgPack also integer / float / timestamp keys) in an envelope [padding 0..600, object, sentinel]; generated request scripts (any order, repeats, absent keys with int / string / optional / atomic / unique_ptr targets, nested object with sub-script, array read for j <= n elements, VisitKeys, early stop) executed through the public Serialize(scope, key, value) API; 4 archives x memory / stringstream / short-read stream; MsgPack keys 2^N - a next to absent requests intN_t(-a) (same bit pattern, N = 8..64); null values requested as nested object / array scope; oracle = the document as a map + the sentinel behind the object',
     assumptions=TRUSTED + ['keys are unique, NUL-free; XML keys are Names and XML strings non-empty (KF-13)', 'nil / empty CSV cells are "not loaded" by design'],
     units=[U('c03_scripts', 'c03_field_order.cpp', flavour='asan', libs=['-lpugixml'], quick=dict(cases=50000, shards=8, min_eval=50000), thorough=dict(cases=2400000, shards=16, min_eval=1000000)),
            U('c03_scripts_chunk32', 'c03_field_order.cpp', flavour='asan32', libs=['-lpugixml'], args=['--skip-prefix', 'kf'], quick=dict(cases=10000, shards=4, min_eval=20000), thorough=dict(cases=300000, shards=8, min_eval=500000))]),
  'C05': dict(
     level='exploration', exhaustive_claim=False,
-    rule='arbitrary trees (depth <= 3: arrays of scalars / of objects, objects holding arrays, byte containers) with 1..6 values at any depth replaced by certainly mismatching values (other scalar kind, string, array, object, out-of-range number; for text archives: unparsable text), loaded with both Skip policies into a sentinel-filled target of the clean shape + envelope sentinel; sequences of narrow numeric types (float / int8 / uint16 / int32 / uint32) whose offences are numbers the element type cannot hold; typed objects with Required() on every field; 4 archives, memory and streams; oracle = model_skip (clean document)',
+    rule='arbitrary trees (depth <= 3: arrays of scalars / of objects, objects holding arrays, byte containers) with 1..6 values at any depth replaced by certainly mismatching values (other scalar kind, string, array, object, out-of-range number; for text archives: unparsable text), loaded with both Skip policies into a sentinel-filled target of the clean shape + envelope sentinel; sequences of narrow numeric types (float / int8 / uint16 / int32 / uint32) whose offences are numbers the element type cannot hold; sets of objects with offended members; typed objects with Required() on every field; 4 archives, memory and streams; oracle = model_skip (clean document)',
     assumptions=TRUSTED + ['nil is "not loaded" under either policy (not used as an offence)', 'bool -> integer and (JSON) integer -> float are legal conversions, not offences', 'an int array for a byte container is legal (falls back to a regular array)'],
     units=[U('c05_skip', 'c05_skip.cpp', flavour='asan', libs=['-lpugixml'], quick=dict(cases=40000, shards=8, min_eval=50000), thorough=dict(cases=600000, shards=16, min_eval=1000000)),
            U('c05_skip_chunk32', 'c05_skip.cpp', flavour='asan32', libs=['-lpugixml'], args=['--skip-prefix', 'kf'], quick=dict(cases=10000, shards=4, min_eval=20000), thorough=dict(cases=300000, shards=8, min_eval=500000))]),
